@@ -26,3 +26,13 @@ func DumpNames(w *World) {
 		fmt.Println(FuncName(f))
 	}
 }
+
+// DumpSignatures prints "name<TAB>signature" for all named functions (used to generate the pinned list).
+func DumpSignatures(w *World) {
+	for _, f := range w.Funcs() {
+		if f.Parent() != nil {
+			continue
+		}
+		fmt.Printf("%s\t%s\n", FuncName(f), SigKey(f))
+	}
+}
